@@ -101,6 +101,9 @@ type Supervisor struct {
 
 	// workers is a map of local RPC addresses to workerInfo data.
 	workers map[string]*workerInfo
+	// forksPending are the bootstraps of forks which are in progress, but not
+	// yet in [workers] (handlers only).
+	forksPending map[*bootstrap]struct{}
 
 	// schemaWorker is the struct for the worker.
 	schemaWorker am.Schema
@@ -185,6 +188,7 @@ func NewSupervisor(
 
 		schemaWorker: workerSchema,
 		workers:      map[string]*workerInfo{},
+		forksPending: map[*bootstrap]struct{}{},
 	}
 
 	if amhelp.IsDebug() {
@@ -262,6 +266,7 @@ func (s *Supervisor) ErrWorkerState(e *am.Event) {
 
 	// dispose bootstrap
 	if args.Bootstrap != nil {
+		delete(s.forksPending, args.Bootstrap)
 		args.Bootstrap.Dispose()
 	}
 
@@ -393,7 +398,8 @@ func (s *Supervisor) StartEnd(e *am.Event) {
 var _ = ssS.ForkWorker
 
 func (s *Supervisor) ForkWorkerEnter(e *am.Event) bool {
-	return len(s.workers) < s.Max
+	// count the forks in progress
+	return len(s.workers)+len(s.forksPending) < s.Max
 }
 
 func (s *Supervisor) ForkWorkerState(e *am.Event) {
@@ -407,6 +413,7 @@ func (s *Supervisor) ForkWorkerState(e *am.Event) {
 		return
 	}
 	argsOut := &A{Bootstrap: boot}
+	s.forksPending[boot] = struct{}{}
 
 	// start connection-bootstrap machine
 	res := boot.Mach.Add1(ssB.Start, nil)
@@ -437,8 +444,9 @@ var _ = ssS.ForkingWorker
 
 func (s *Supervisor) ForkingWorkerEnter(e *am.Event) bool {
 	a := am.ParseArgs[A](e.Args)
+	// this fork is one of the pending ones
 	return a.Bootstrap != nil && a.Bootstrap.Addr() != "" &&
-		len(s.workers) < s.Max
+		len(s.workers)+len(s.forksPending) <= s.Max
 }
 
 func (s *Supervisor) ForkingWorkerState(e *am.Event) {
@@ -966,6 +974,12 @@ func (s *Supervisor) SetWorkerState(e *am.Event) {
 
 	if args.WorkerInfo != nil {
 		s.workers[addr] = args.WorkerInfo
+		// the fork is tracked from now on
+		for boot := range s.forksPending {
+			if boot.Addr() == addr {
+				delete(s.forksPending, boot)
+			}
+		}
 	} else {
 		delete(s.workers, addr)
 	}
